@@ -231,7 +231,7 @@ def run(tier, cmd):
                             'constants, accessors, the 16 encoder cases (controller numbers 101/100 or 99/98, 6, 38, 96, 97; 7-bit splits of number '
                             'and value; fourth slot filled exactly for 14-bit), the array conversion, and the 7-bit/14-bit consistency invariant at '
                             'all construction sites. The factory-specific byte placement is C06/C01.')
-    Fs = load_configs(chk, ['K1'] + (['K2'] if tier == 'thorough' else []), required=('K1',))
+    Fs = load_configs(chk, ['K1', 'K2'], required=('K1',))
     for cfg, F in sorted(Fs.items()):
         roles = A.msg_roles(F)
         guarded(chk, '%s/constructors/%s' % (PID, cfg), 'constructor fields', lambda F=F: constructors_clause(chk, F, roles))
